@@ -121,7 +121,7 @@ class Simulation(object):
         self.block = block
         self.default_value = default_value
         if tracer is True:
-            tracer = SimulationTrace()
+            tracer = SimulationTrace(block=block)
         self.tracer = tracer
         self._initialize(register_value_map, memory_value_map)
 
@@ -547,7 +547,7 @@ class FastSimulation(object):
         self.block = block
         self.default_value = default_value
         if tracer is True:
-            tracer = SimulationTrace()
+            tracer = SimulationTrace(block=block)
         self.tracer = tracer
         self.sim_func = None
         self.code_file = code_file
